@@ -22,7 +22,7 @@ ASSUMPTIONS = ["cube ⊆ cube by bit algebra, cube ⊆ union by exact cover (sel
                "`in` may raise TypeError when a non-contiguous wildcard or a group reference is an "
                "operand (documented); any other exception is a violation"]
 REQUIRED = ["true_contained", "false_not_contained", "nc_pair_contained", "group_member_in",
-            "group_items_true", "relined_answer_changed"]
+            "group_items_true", "relined_answer_changed", "sequence_ok"]
 
 
 def addresses(seed):
@@ -84,6 +84,7 @@ def units(tier, seed):
         for k in ([1, 2] if tier == "quick" else [1, 2, 3]):
             out.append(dict(kind="groups", platform=plat, k=k))
         out.append(dict(kind="cross_text", platform=plat))
+        out.append(dict(kind="sequences", platform=plat))
         out.append(dict(kind="items", platform=plat))
         out.append(dict(kind="items_ordered", platform=plat))
         out.append(dict(kind="relined", platform=plat))
@@ -121,6 +122,8 @@ def run_unit(unit, ctx):
                 _pair(unit["platform"], a, b, ta, tb, ctx)
     elif unit["kind"] == "cross_text":
         _cross_text(unit["platform"], ctx)
+    elif unit["kind"] == "sequences":
+        _sequences(unit["platform"], ctx)
     elif unit["kind"] == "groups":
         _groups(unit, ctx)
     elif unit["kind"] == "items_ordered":
@@ -250,6 +253,76 @@ def _group_case(platform, x, members, ctx):
                      dict(case, candidate=text, candidate_platform=other), got2, want2)
         else:
             ctx.out("cross_platform_in_ok")
+
+
+def _sequences(plat, ctx):
+    """Two queries in a row on the SAME objects (a query must leave nothing behind): x against
+    partner p1, then x against partner p2, as bottom and as top, through subnet_of and through
+    `in` on one group object; the caller also edits a returned ipnets() list in between."""
+    from cisco_acl import AddrGroup, Address, AddressAg
+    from cisco_acl import functions as F
+
+    adrs = {a.label: a for a in addresses(ctx.seed)}
+    xs = [adrs[k] for k in ("nc0", "nc1", "nc5", "nc_sup", "chain24", "chain30", "nc7")]
+    partners = [adrs[k] for k in ("chain32", "chain30", "chain24", "chain23", "sib24", "nc_sub", "nc5",
+                                  "host_w1", "nc0b", "nc_half")]
+    for x in xs:
+        for p1 in partners:
+            for p2 in partners:
+                for first in ("bottom", "top", "edit"):
+                    ctx.ev()
+                    tx, t1, t2 = (o.spellings(plat)[0][0] for o in (x, p1, p2))
+                    case = dict(kind="sequence", platform=plat, x=tx, first=first, p1=t1, p2=t2)
+                    try:
+                        ox, o1, o2 = (Address(t, platform=plat) for t in (tx, t1, t2))
+                        if first == "bottom":
+                            ox.subnet_of(o1)
+                        elif first == "top":
+                            F.subnet_of(top=ox, bottom=o1)
+                        else:
+                            lst = ox.ipnets()
+                            if len(lst) > 1:
+                                lst.pop()
+                        got = (ox.subnet_of(o2), o2.subnet_of(ox), o1.subnet_of(o2))
+                    except Exception as ex:  # noqa
+                        ctx.viol("sequence:exception", case, repr(ex), "answers")
+                        continue
+                    want = (S.cube_subset(x.cubes[0], p2.cubes[0]), S.cube_subset(p2.cubes[0], x.cubes[0]),
+                            S.cube_subset(p1.cubes[0], p2.cubes[0]))
+                    if tuple(map(bool, got)) != want:
+                        ctx.viol("sequence:second_query_differs_from_a_fresh_one", case, got, want)
+                    else:
+                        ctx.out("sequence_ok")
+    # `in` on one group object, twice
+    pool = [a for a in (adrs[k] for k in ("chain24", "sib24", "chain30", "host_w1", "chain16", "host_ext"))
+            if _ag_spelling(a, plat)]
+    cands = [a for a in (adrs[k] for k in ("chain32", "chain30", "chain25", "host_w1", "sib25", "host_ext"))
+             if _ag_spelling(a, plat)]
+    head = "object-group network G" if plat == "ios" else "object-group ip address G"
+    from itertools import permutations as _perm
+
+    for members in _perm(pool, 3):
+        for c1 in cands:
+            for c2 in cands:
+                ctx.ev()
+                case = dict(kind="sequence_in", platform=plat, members=[_ag_spelling(m, plat) for m in members],
+                            c1=_ag_spelling(c1, plat), c2=_ag_spelling(c2, plat))
+                try:
+                    grp = AddrGroup(head + "\n" + "\n".join(" " + _ag_spelling(m, plat) for m in members),
+                                    platform=plat)
+                    before = grp.line
+                    _ = AddressAg(_ag_spelling(c1, plat), platform=plat) in grp
+                    got = AddressAg(_ag_spelling(c2, plat), platform=plat) in grp
+                except Exception as ex:  # noqa
+                    ctx.viol("sequence_in:exception", case, repr(ex), "answers")
+                    continue
+                want = any(S.cube_subset(c2.cubes[0], m.cubes[0]) for m in members)
+                if bool(got) != want or grp.line != before:
+                    ctx.viol("sequence_in:second_query_differs_or_group_modified", case,
+                             dict(answer=got, group=grp.line), dict(answer=want, group=before))
+                else:
+                    ctx.out("sequence_ok")
+    ctx.sample("sequences", dict(platform=plat))
 
 
 def _cross_text(plat, ctx):
